@@ -37,7 +37,8 @@ ASYNC = ('update', 'error_update', 'log')
 
 def shards(tier, seed):
     return [{'idx': i, 'n': N_EXAMPLES[tier], 'part': 'gen'} for i in range(13)] + [{'idx': 13, 'part': 'short'}, {'idx': 14, 'part': 'codec', 'n': N_EXAMPLES[tier] * 10},
-                                                                                    {'idx': 15, 'part': 'twoconn', 'n': N_EXAMPLES[tier]}]
+                                                                                    {'idx': 15, 'part': 'twoconn', 'n': N_EXAMPLES[tier]},
+                                                                                    {'idx': 16, 'part': 'interleave', 'n': N_EXAMPLES[tier] // 2}, {'idx': 17, 'part': 'interleave', 'n': N_EXAMPLES[tier] // 2}]
 
 
 _CLASSES = None
@@ -118,7 +119,10 @@ class Node:
 VALID_LINES = ['*IDN?', 'describe', 'describe .', 'describe m', 'activate', 'activate m', 'activate m:value', 'deactivate', 'deactivate m', 'deactivate m:value',
                'read m:value', 'read m', 'read m:_s', 'read m:_const', 'read n:status', 'change m:target 5', 'change m 1.5', 'change m:_s "x y"',
                'change m:_st {"a": 2}', 'change m:_arr [1, 2, 3]', 'change m:_blob "AAEC"', 'change m:_rmode 1', 'change m:_rmode 0', 'do m:_cmd [1, "a b"]',
-               'do m:go', 'ping', 'ping 123', 'ping x y', 'help', 'logging . "off"', 'logging m "debug"', 'change m:_s "äöü€"', 'change m:pollinterval 1']
+               'do m:go', 'ping', 'ping 123', 'ping x y', 'help', 'logging . "off"', 'logging m "debug"', 'change m:_s "äöü€"', 'change m:pollinterval 1',
+               # JSON escapes: a lone surrogate (no valid UTF-8 form - must stay escaped in every reply and update), a surrogate pair, controls
+               'change m:_s "a\\ud800b"', 'change m:_s "\\ud83d\\ude00"', 'change m:_s "\\u00e4\\n\\t\\"\\\\"', 'do m:_cmd [1, "\\udfff"]',
+               'read m:_s']
 INVALID_LINES = ['read', 'read nomod:value', 'read m:_nix', 'read m:_hidden', 'read m:value 1', 'change m:target', 'change m:target "5"', 'change m:_const 3',
                  'change m:_arr 5', 'change m:_st {"zz": 1}', 'change m:value 1', 'do m', 'do m:_cmd', 'do m:_cmd 5', 'do m:go 1', 'do m:_nix', 'do m:target',
                  'activate nomod', 'activate m:_nix', 'activate m:_cmd', 'activate m 1', 'deactivate nomod', 'describe nomod', 'describe m:_nix',
@@ -483,7 +487,68 @@ def check_twoconn(ctx, case):
         ctx.ok('connections-isolated')
 
 
+INTERLEAVE_FIXED = [
+    {'conns': [[['activate', None, 0], ['help', None, 0], ['ping', None, 0]]],
+     'drivers': [[['assign', 'm0', 'a', 0], ['assign', 'm0', 'a', 0], ['assign', 'm0', 'b', 0], ['assign', 'm0', 'a', 0]]]},
+    {'conns': [[['activate', 'm0:_a', 0], ['idn', None, 0], ['activate', 'm0', 0], ['help', None, 0]], [['activate', None, 0], ['help', None, 0]]],
+     'drivers': [[['assign', 'm0', 'a', 0], ['error', 'm0', 'b', 0], ['assign', 'm0', 'a', 0]]]},
+]
+
+
+def interleave_systematic(ctx):
+    """every schedule with one forced switch (to each of two other threads) at every decision point of two fixed scenarios"""
+    from vf.checks import c08
+    for sc in INTERLEAVE_FIXED:
+        case = dict(sc, kind='interleave', schedule=[])
+        steps = c08.run_scenario(dict(case, kind='scenario'))['sched'].steps
+        for step in range(1, steps + 1):
+            for k in (1, 2):
+                check_interleave(ctx, dict(case, preempt={str(step): k}))
+    ctx.extra['interleave_one_preemption_complete'] = True
+
+
+def check_interleave(ctx, case):
+    """asynchronous messages never split another line: connections under the deterministic scheduler of C08 (activated, asking
+    for multi-line help and other replies while driver threads announce updates; sendall delivers in portions)"""
+    from vf.checks import c08
+    ctx.ev()
+    pre = case.get('preempt')
+    out = c08.run_scenario(dict({k: v for k, v in case.items() if k != 'preempt'}, kind='scenario'), {int(k): v for k, v in pre.items()} if pre else None)
+    if out['error'] is not None:
+        return      # scheduling problems are C08's business
+    nasync = 0
+    for name, sent in out['logs'].items():
+        msgs = c08.parse(sent)
+        nasync += sum(1 for m in msgs if m[1] in ('update', 'error_update'))
+        for step, action, spec, data in msgs:
+            if action == '?split-line':
+                ctx.finding('async:line-split-by-other-message', dict(case, kind='interleave'), f'{name}: {data[:120]!r}')
+                return
+    if nasync and any(item[0] == 'help' for script in case['conns'] for item in script):
+        ctx.nt(('interleave', out['sched'].trace_hash()))
+    ctx.ok('no-line-split')
+
+
+@st.composite
+def interleave_case(draw):
+    conns = []
+    for _ in range(draw(st.integers(1, 2))):
+        script = [['activate', draw(st.sampled_from([None, None, 'm0', 'm0:_a'])), 0]]
+        for _ in range(draw(st.integers(1, 4))):
+            script.append([draw(st.sampled_from(['help', 'help', 'ping', 'idn', 'activate'])), None, draw(st.sampled_from([0, 0, 0.5]))])
+        conns.append(script)
+    drivers = [[[draw(st.sampled_from(['assign', 'assign', 'read', 'error'])), 'm0', draw(st.sampled_from(['a', 'a', 'b'])), draw(st.sampled_from([0, 0, 0, 0.5]))]
+                for _ in range(draw(st.integers(3, 10)))] for _ in range(draw(st.integers(1, 2)))]
+    return {'kind': 'interleave', 'conns': conns, 'drivers': drivers, 'schedule': draw(st.lists(st.integers(0, 3), min_size=20, max_size=200))}
+
+
 def run_shard(ctx, shard):
+    if shard['part'] == 'interleave':
+        if shard['idx'] == 16:
+            interleave_systematic(ctx)
+            return
+        drive(interleave_case(), lambda case: check_interleave(ctx, case), shard['n'], ctx.seed * 1000 + shard['idx'])
+        return
     if shard['part'] == 'gen':
         drive(stream_case(), lambda case: check_stream(ctx, case), shard['n'], ctx.seed * 1000 + shard['idx'])
     elif shard['part'] == 'short':
@@ -495,4 +560,5 @@ def run_shard(ctx, shard):
 
 
 def run_case(ctx, case):
-    {'stream': check_stream, 'triple': check_triple, 'twoconn': check_twoconn}[case['kind']](ctx, case)
+    {'stream': check_stream, 'triple': check_triple, 'twoconn': check_twoconn, 'interleave': check_interleave,
+     'scenario': check_interleave}[case['kind']](ctx, case)
